@@ -86,6 +86,15 @@ BOUNDS = {
     "quick": [
         {"id": "csv-d3", "depth": 3, "prefix": 2, "vals": ["df1", "df2"], "locs": ["own", "clash"],
          "module": False, "update_new": [None, "fresh"], "model_level": True},
+        # from a seeded start state (a spec'd value and a second, plainly bound value): updates onto an already
+        # referenced value, two more ops
+        {"id": "seeded-d4", "depth": 4, "prefix": 3, "vals": ["df1", "df2"], "locs": ["own"],
+         "module": False, "update_new": [None, "fresh", "other"], "model_level": False,
+         "start": [{"op": "new_pandas", "m": "M1", "space": "A", "name": "x", "val": "df1", "loc": "own"},
+                   {"op": "assign", "m": "M1", "space": "A", "name": "y", "val": "df2"}]},
+        # excel workbooks: named sheets, no sheet, clashing sheets
+        {"id": "xl-d2", "depth": 2, "prefix": 1, "vals": ["df1", "df2"], "locs": ["xl", "xlclash", "xlnone"],
+         "module": False, "update_new": [None], "model_level": False},
     ],
     "thorough": [
         {"id": "csv-d4", "depth": 4, "prefix": 2, "vals": ["df1", "df2"], "locs": ["own", "clash"],
@@ -468,8 +477,8 @@ def views(w):
     """Both spec views per open model + iomanager keys."""
     out = {"mgr": {}, "pub": {}, "ios": safe(lambda: ios_keys(w))}
     for mname in w.open_models():
-        out["mgr"][mname] = safe(lambda: sorted(spec_key(w, s) for s in manager_view(w, mname)))
-        out["pub"][mname] = safe(lambda: sorted(spec_key(w, s) for s in w.models[mname].iospecs))
+        out["mgr"][mname] = safe(lambda: sorted((spec_key(w, s) for s in manager_view(w, mname)), key=jd))
+        out["pub"][mname] = safe(lambda: sorted((spec_key(w, s) for s in w.models[mname].iospecs), key=jd))
     return out
 
 
@@ -541,7 +550,7 @@ def step(w, op, check):
         if isinstance(bound[mname], str):
             bad("sanity", {"model": mname, "references unreadable": bound[mname]}, "readable")
             continue
-        exp = sorted(rec_key(rec) for rec in w.live[mname])
+        exp = sorted((rec_key(rec) for rec in w.live[mname]), key=jd)
         if vw["mgr"][mname] != exp:
             bad("exact/manager", {"model": mname, "manager": vw["mgr"][mname],
                                   "bound": sorted(bound[mname])}, exp)
@@ -609,7 +618,7 @@ def io_config(w, mname):
     m = w.models[mname]
     return digest({
         "model": mname,
-        "live": sorted(rec_key(r) for r in w.live[mname]),
+        "live": sorted((rec_key(r) for r in w.live[mname]), key=jd),
         "bind": safe(lambda: bindings(w, mname)),
         "spaces": safe(lambda: sorted([s.fullname, [x.name for x in s._direct_bases]]
                                       for s in walk_spaces(m, dynamic=False))),
@@ -676,7 +685,7 @@ def canon(w):
         "closed": sorted(w.closed),
         "nmods": w.nmods,
         "used": sorted(w.used),
-        "live": {m: sorted(rec_key(r) for r in w.live[m]) for m in w.live},
+        "live": {m: sorted((rec_key(r) for r in w.live[m]), key=jd) for m in w.live},
     }
     vw = views(w)
     extra["mgr"] = vw["mgr"]
@@ -827,8 +836,8 @@ def work_items(tier, seed):
     with Scratch() as sc:
         try:
             for ph, b in enumerate(BOUNDS[tier]):
-                level = [[]]
-                for d in range(b["prefix"]):
+                level = [list(b.get("start", []))]
+                for d in range(len(b.get("start", [])), b["prefix"]):
                     nxt = []
                     for h in level:
                         w, vs, obss, _ = replay(h, sc, b, check="all")
